@@ -145,6 +145,15 @@ pub fn run(ctx: &Ctx) -> Report {
         ns.push(limit + 1 + rng.below((1u64 << 22) - limit as u64) as u32);
     }
     ns.push(1 << 22);
+    // beyond the point where a worker index is no longer exact in f32
+    for n in [(1u32 << 24) - 1, 1 << 24, (1 << 24) + 1, (1 << 24) + 3] {
+        ns.push(n);
+    }
+    if ctx.tier == Tier::Thorough {
+        for _ in 0..12 {
+            ns.push((1 << 22) + rng.below((1u64 << 25) - (1 << 22)) as u32);
+        }
+    }
     let results = par_run(
         ns.len(),
         64,
@@ -199,7 +208,7 @@ pub fn run(ctx: &Ctx) -> Report {
     report.distinct_extra = ns.len() as u64 + jobs.len() as u64;
     report.exhaustive = Some(true);
     report.set("n_interval_exhausted", Json::str(format!("1..={}", limit)));
-    report.set("n_sampled_above_interval", Json::Int(65));
+    report.set("n_sampled_above_interval", Json::Int(ns.len() as i128 - limit as i128));
     report.set("n_with_defective_lists", Json::Int(bad.len() as i128));
     report.set("distinct_cut_positions_seen", Json::Int(cuts.iter().map(|w| w.count_ones() as i128).sum()));
     report.set("end_to_end_worker_counts", Json::Int(e2e_ns.len() as i128));
@@ -209,7 +218,7 @@ pub fn run(ctx: &Ctx) -> Report {
         }
     }
     report.rule = "one execution = calculate_scopes(n) from the example's own source checked for: n scopes, first from (0,1), last to (48,49), each from = previous to, no step backwards, only valid positions; plus end-to-end runs (one real scoped evaluator per scope, sums of showdowns and wins against the single run); distinct = distinct n (pure) + distinct (n, configuration) (end to end); exhaustive over the stated n interval".into();
-    report.assumptions.push("'all n >= 1' is cut at 2^22: every n of the stated interval, 65 seeded n above it".into());
+    report.assumptions.push("'all n >= 1' is cut at 2^24+3 (quick) / 2^25 (thorough): every n of the stated interval, 65 seeded n up to 2^22, four n around 2^24 where the worker index stops being exact in f32".into());
     report.assumptions.push("end-to-end workers run sequentially here; what threads add is C15's subject".into());
     report
 }
